@@ -6,8 +6,8 @@ TECH = "contract-based deductive verification of the real Go code: VCs generated
 
 claimed = {
  "C06": dict(
-   text="VerifyBatch is verified, for every batch length (any n >= 0, any number of 64-entry chunks plus remainder, symbolic chunk size) and every mixture of entries, against a contract whose loop invariants hold at all nine loops: (G1) an entry that single verification (verifyWithOptionsNoPanic, itself verified against the documented predicate) accepts is never reported false, i.e. every entry reported false is one single verification rejects; (G2) the summary flag is exactly the conjunction of the per-entry results; the result vector is fresh with one element per entry; errors exactly for an over-long context, mismatched argument counts or a failing entropy source; (S1) a chunk is handed to the batch equation only after every entry of it passed every non-equation acceptance condition of single verification under the same options; entries decided by the fallback or the remainder loop carry single verification's verdict; no panic for any malformed entry. Quantified invariants are discharged with deterministic instantiation, skolemisation and a case split on the updated entry.",
-   note="NOT proved, and named as assumptions in the evidence: the Bos-Coster multi-scalar multiplication and its heap (trusted contract, memory safety and magnitudes only), hence that the point tested is the randomised combination of the entries; and the probabilistic soundness of the batch equation (the 2^-120 clause, M7), which a deductive verifier cannot express. Consequently 'reported true => valid' for batch-accepted chunks is not established here, and a change that corrupts the scalars/points/hash inputs of the batch path without touching the checks above is not detected.",
+   text="VerifyBatch is verified, for every batch length (any n >= 0, any number of 64-entry chunks plus remainder, symbolic chunk size) and every mixture of entries, against a contract whose loop invariants hold at all nine loops: (G1) an entry that single verification (verifyWithOptionsNoPanic, itself verified against the documented predicate) accepts is never reported false, i.e. every entry reported false is one single verification rejects; (G2) the summary flag is exactly the conjunction of the per-entry results; the result vector is fresh with one element per entry; errors exactly for an over-long context, mismatched argument counts or a failing entropy source; (S1) a chunk is handed to the batch equation only after every entry of it passed every non-equation acceptance condition of single verification under the same options; entries decided by the fallback or the remainder loop carry single verification's verdict; (H) the challenge hashed for each batch entry is the one single verification hashes (same dom2 flag, context, R, A, M); no panic for any malformed entry. Quantified invariants are discharged with deterministic instantiation, skolemisation and a case split on the updated entry.",
+   note="NOT proved, and named as assumptions in the evidence: the Bos-Coster multi-scalar multiplication and its heap (trusted contract, memory safety and magnitudes only), hence that the point tested is the randomised combination of the entries; and the probabilistic soundness of the batch equation (the 2^-120 clause, M7), which a deductive verifier cannot express. Consequently 'reported true => valid' for batch-accepted chunks is not established here, and a change that corrupts how the scalars/points of the batch path are combined (randomisers, products, negations) without touching the checks above is not detected.",
    ref="DESIGN.md §6 C06, §13"),
  "C08": dict(
    text="The contracts of every exported function of ed25519 (non-batch) and extra/x25519 are written once, configuration-independently, in terms of mathematical spec functions; the code of each build configuration (assembly selector, Go selector with the unsafe and with the subtle conditional move, 64- and 32-bit limbs, GOARCH=386 in the thorough tier) is verified against those same contracts together with every internal function it uses. Two configurations therefore return identical bytes for identical inputs. Quick tier: the five configurations that cover every compiled combination of selector x conditional move x limb width; thorough: all seven including a 32-bit target.",
